@@ -345,3 +345,17 @@ H("C13", file="core/book_keeping.rs", name="c01_residual_2", timeout=1500, expec
   oracle="verdict and recorded price satisfy an order-free predicate for every order")
 H("C13", file="core/book_keeping.rs", name="c03_deduce_kernel", timeout=1500, expect_s=190, map_cap=2,
   functions=["Amount::negate", "Balance::add_amount"], bound="symbolic iteration order", models=[DEC, MAPND], oracle="order-free values")
+
+# --------------------------------------------------------------------------- C10
+prop("C10", title="Converted reports convert every amount or fail",
+     level_text="Bounded model checking of price_db::convert_amount / PriceRepository::convert_single, the function both conversion "
+                "strategies of `balance -X` funnel every holding through: for every amount over {X, Y, T} (symbolic presence and 6-bit signed "
+                "values per commodity), target T, and symbolic availability of each rate, the call fails iff a needed rate is missing, "
+                "otherwise returns exactly the sum of value x rate plus the untouched T amount, with no unconverted commodity left. The "
+                "price table for (T, date) is pre-computed in the repository cache: the search that fills it, Ledger::balance's two strategy "
+                "branches, rounding to T's precision and the CLI flags are outside (Ledger::balance did not fit the solver: DESIGN 7).",
+     level_note="Trusted: Kani/CBMC; verif_map (capacity 3), verif_dec; 6-bit values so that the products of code and reference can be matched.")
+H("C10", file="core/price_db.rs", name="c10_convert_amount", timeout=1800, expect_s=330, map_cap=3,
+  functions=["price_db::convert_amount", "PriceRepository::convert_single", "Amount::iter", "Amount += SingleAmount"],
+  bound="holdings in X, Y, T each present or not, 6-bit signed; rates X->T, Y->T each available or not (8-bit positive); unwind 6",
+  models=[DEC, MAP, FMT, BUMP], oracle="Err(RateNotFound) iff a held commodity has no rate; Ok => T total == sum value x rate + T holding, nothing else left")
